@@ -67,45 +67,144 @@ fn u4_orphan_test_exact() {
     core::mem::forget((a, b));
 }
 
-/// The trace itself on the compiled code: two-object ring with symbolic multiplicities, traced from a.
+// ------------------------------------------------------------ the trace itself, bounded twin
+// `cycle_refs` on the compiled code.  CBMC cannot propagate constants through `RcBox.links` (a
+// `MaybeUninit` union member of a heap object, DESIGN.md 12.5), which makes the work-list x table loops
+// intractable.  The twin therefore replaces the three-line accessor `RcBox::links()` by its contract
+// ("returns the table of this object") with the tables kept in harness-owned statics; everything else --
+// the work-list, the visited set, the counting, the back-link handling -- is the real compiled code.
+use crate::link::Links;
+use core::cell::RefCell;
+
+static mut TBL: [Option<RefCell<Links<u8>>>; 3] = [None, None, None];
+static mut TBL_OWNER: [usize; 3] = [0; 3];
+
+unsafe fn stub_links<T>(this: &RcBox<T>) -> &RefCell<Links<T>> {
+    let addr = this as *const RcBox<T> as usize;
+    let i = if addr == TBL_OWNER[0] {
+        0
+    } else if addr == TBL_OWNER[1] {
+        1
+    } else {
+        kani::assert(addr == TBL_OWNER[2], "X.trace_twin.dereferences_only_registered_objects");
+        2
+    };
+    let r: &RefCell<Links<u8>> = match &TBL[i] {
+        Some(r) => r,
+        None => unreachable!(),
+    };
+    &*(r as *const RefCell<Links<u8>> as *const RefCell<Links<T>>)
+}
+
+fn own_table(i: usize, rc: &Rc<u8>) {
+    unsafe {
+        TBL_OWNER[i] = rc.ptr.as_ptr() as usize;
+        TBL[i] = Some(RefCell::new(Links::new()));
+    }
+}
+
+fn put(i: usize, l: Link<u8>, c: usize) {
+    unsafe {
+        if let Some(t) = &TBL[i] {
+            t.borrow_mut().set(l, c);
+        }
+    }
+}
+
+/// two-object ring (a holds b twice, b holds a once), traced from a
 #[kani::proof]
 #[kani::unwind(7)]
+#[kani::stub(crate::rc::RcBox::links, stub_links)]
 fn u4_trace_ring2() {
     let a = Rc::new(1u8);
     let b = Rc::new(2u8);
-    let (k, j): (usize, usize) = (kani::any(), kani::any());
-    kani::assume(k >= 1 && j >= 1);
-    install(&a, fwd(&b), k);
-    install(&b, bwd(&a), k);
-    install(&b, fwd(&a), j);
-    install(&a, bwd(&b), j);
+    own_table(0, &a);
+    own_table(1, &b);
+    // concrete multiplicities: with symbolic ones the same harness needs > 14 GB (DESIGN.md 12.5)
+    let (k, j): (usize, usize) = (2, 1);
+    put(0, fwd(&b), k);
+    put(1, bwd(&a), k);
+    put(1, fwd(&a), j);
+    put(0, bwd(&b), j);
     let m = cycle_refs(fwd(&a));
     kani::assert(m.len() == 2, "U4.trace.ring2.keys_are_exactly_the_two_members");
     kani::assert(m.get(&fwd(&b)) == Some(&k) && m.get(&fwd(&a)) == Some(&j), "U4.trace.ring2.counts_are_the_recorded_multiplicities");
-    kani::assert(borrow_free(&a) && borrow_free(&b), "U4.trace.no_borrow_left");
     core::mem::forget(m);
     core::mem::forget((a, b));
 }
 
-/// an outside owner c of a ring member appears with count 0 (so the orphan test can see it); a loopback
-/// record on a has no influence
+/// an outside owner c of the traced object appears with count 0 (so that the orphan test can see it), a
+/// same-handle self-adoption (Loopback) has no influence, a self-adoption through a clone is counted
 #[kani::proof]
 #[kani::unwind(7)]
+#[kani::stub(crate::rc::RcBox::links, stub_links)]
 fn u4_trace_outside_owner() {
     let a = Rc::new(1u8);
     let c = Rc::new(3u8);
-    let (k, l): (usize, usize) = (kani::any(), kani::any());
-    kani::assume(k >= 1);
-    // a holds itself k times (through clones), c holds a once, a has l same-handle self-adoptions
-    install(&a, fwd(&a), k);
-    install(&a, bwd(&a), k);
-    install(&a, lpb(&a), l);
-    install(&c, fwd(&a), 1);
-    install(&a, bwd(&c), 1);
+    own_table(0, &a);
+    own_table(1, &c);
+    let (k, l): (usize, usize) = (2, 3);
+    put(0, fwd(&a), k);
+    put(0, bwd(&a), k);
+    put(0, lpb(&a), l);
+    put(1, fwd(&a), 1);
+    put(0, bwd(&c), 1);
     let m = cycle_refs(fwd(&a));
     kani::assert(m.len() == 2, "U4.trace.outside_owner.keys_are_member_and_adopter");
     kani::assert(m.get(&fwd(&a)) == Some(&k), "U4.trace.outside_owner.member_count_ignores_loopback_and_untraced_owner");
     kani::assert(m.get(&fwd(&c)) == Some(&0), "U4.trace.outside_owner.untraced_adopter_has_count_zero");
     core::mem::forget(m);
     core::mem::forget((a, c));
+}
+
+/// two owners of t with unequal multiplicities (a holds t twice, b holds t once, t holds a and b), traced
+/// from t: the count of t is the sum over both owners whatever the order in which they are discovered
+#[kani::proof]
+#[kani::unwind(8)]
+#[kani::stub(crate::rc::RcBox::links, stub_links)]
+fn u4_trace_two_owners() {
+    let t = Rc::new(0u8);
+    let a = Rc::new(1u8);
+    let b = Rc::new(2u8);
+    own_table(0, &t);
+    own_table(1, &a);
+    own_table(2, &b);
+    put(0, fwd(&a), 1);
+    put(1, bwd(&t), 1);
+    put(0, fwd(&b), 1);
+    put(2, bwd(&t), 1);
+    put(1, fwd(&t), 2);
+    put(0, bwd(&a), 2);
+    put(2, fwd(&t), 1);
+    put(0, bwd(&b), 1);
+    let m = cycle_refs(fwd(&t));
+    kani::assert(m.len() == 3, "U4.trace.two_owners.keys_are_the_three_members");
+    kani::assert(m.get(&fwd(&t)) == Some(&3), "U4.trace.two_owners.count_is_sum_over_distinct_owners");
+    kani::assert(m.get(&fwd(&a)) == Some(&1) && m.get(&fwd(&b)) == Some(&1), "U4.trace.two_owners.owner_counts");
+    core::mem::forget(m);
+    core::mem::forget((t, a, b));
+}
+
+/// acyclic tail: a -> b -> c, traced from a: every adoptee is a key with its owner's multiplicity, the
+/// start object is not a key (nothing adopts it)
+#[kani::proof]
+#[kani::unwind(8)]
+#[kani::stub(crate::rc::RcBox::links, stub_links)]
+fn u4_trace_chain3() {
+    let a = Rc::new(0u8);
+    let b = Rc::new(1u8);
+    let c = Rc::new(2u8);
+    own_table(0, &a);
+    own_table(1, &b);
+    own_table(2, &c);
+    put(0, fwd(&b), 1);
+    put(1, bwd(&a), 1);
+    put(1, fwd(&c), 2);
+    put(2, bwd(&b), 2);
+    let m = cycle_refs(fwd(&a));
+    kani::assert(m.len() == 3, "U4.trace.chain3.keys_are_adoptees_and_adopters");
+    kani::assert(m.get(&fwd(&b)) == Some(&1) && m.get(&fwd(&c)) == Some(&2), "U4.trace.chain3.counts_are_the_recorded_multiplicities");
+    kani::assert(m.get(&fwd(&a)) == Some(&0), "U4.trace.chain3.start_object_appears_as_adopter_with_count_zero");
+    core::mem::forget(m);
+    core::mem::forget((a, b, c));
 }
